@@ -297,3 +297,83 @@ Proof. unfold races_known_h. destruct (race_pairs_gen multi_handler A); [reflexi
 
 Definition unknown_races_h (A : list access) (known : list kpair) : list (string * string * string) :=
   map pair_key (filter (fun p => negb (existsb (pair_matches A p) known)) (race_pairs_gen multi_handler A)).
+
+(* ------------------------------------------------------------------------------------------ *)
+(** * (iv) track registration (channel.addTrData)
+
+    addTrData runs under ch.mu.Lock() as one critical section: scan trDatas for a video track,
+    if there is none the new track becomes the master track, insert the track.  [rstep true] is
+    that code; [rstep false] is the shape with the scan in an earlier critical section than the
+    update (a read lock for the scan, released before the write lock), which is NOT the code. *)
+Inductive rpc := RScan | RUpd (firstVideo : bool) | RDone.
+Record rthread := mkR { r_name : Z; r_video : bool; r_pc : rpc }.
+Record regw := mkRW { rw_tbl : list (Z * bool); rw_master : option Z; rw_threads : list rthread }.
+
+Definition has_video (t : list (Z * bool)) : bool := existsb snd t.
+
+Definition rupdate (w : regw) (th : rthread) (firstVideo : bool) : regw :=
+  mkRW (rw_tbl w ++ [(r_name th, r_video th)])
+       (if firstVideo then Some (r_name th) else rw_master w) (rw_threads w).
+
+Definition rstep_thread (atomic : bool) (w : regw) (th : rthread) : regw * rthread :=
+  match r_pc th with
+  | RScan =>
+    let fv := negb (has_video (rw_tbl w)) in
+    if atomic then (rupdate w th fv, mkR (r_name th) (r_video th) RDone)
+    else (w, mkR (r_name th) (r_video th) (RUpd fv))
+  | RUpd fv => (rupdate w th fv, mkR (r_name th) (r_video th) RDone)
+  | RDone => (w, th)
+  end.
+
+Definition rstep (atomic : bool) (w : regw) (t : nat) : regw :=
+  match nth_error (rw_threads w) t with
+  | None => w
+  | Some th =>
+    let '(w', th') := rstep_thread atomic w th in
+    mkRW (rw_tbl w') (rw_master w') (set_nth t th' (rw_threads w'))
+  end.
+
+Definition rexec (atomic : bool) (w : regw) (sched : list nat) : regw := fold_left (rstep atomic) sched w.
+Definition rinit (reqs : list (Z * bool)) : regw := mkRW [] None (map (fun r => mkR (fst r) (snd r) RScan) reqs).
+
+(** whenever a video track is registered, the master track is a registered video track *)
+Definition master_ok (w : regw) : Prop :=
+  has_video (rw_tbl w) = true -> exists m, rw_master w = Some m /\ In (m, true) (rw_tbl w).
+
+(** the threads of the atomic system are never in [RUpd] *)
+Definition no_upd (w : regw) : Prop := Forall (fun th => match r_pc th with RUpd _ => False | _ => True end) (rw_threads w).
+
+Lemma ratomic_step w t : master_ok w /\ no_upd w -> master_ok (rstep true w t) /\ no_upd (rstep true w t).
+Proof.
+  intros [M N]. unfold rstep. destruct (nth_error (rw_threads w) t) as [th|] eqn:E; [|split; assumption].
+  pose proof (proj1 (Forall_forall _ _) N th (nth_error_In _ _ E)) as Nth.
+  cbn beta in Nth. unfold rstep_thread. destruct (r_pc th) eqn:Epc; [| destruct Nth |].
+  - split.
+    + unfold master_ok, rupdate, has_video in *. cbn [rw_tbl rw_master]. rewrite existsb_app. cbn [existsb snd orb].
+      destruct (existsb snd (rw_tbl w)) eqn:Ev; cbn [negb orb].
+      * intros _. destruct (M eq_refl) as (m & Hm & Hin). exists m. split; [exact Hm|]. apply in_or_app. left; exact Hin.
+      * rewrite orb_false_r. intros Hv. exists (r_name th). split; [reflexivity|]. apply in_or_app. right. left. rewrite Hv. reflexivity.
+    + unfold no_upd, rupdate. cbn [rw_threads]. apply Forall_set_nth; [exact N|exact I].
+  - split; [exact M|]. unfold no_upd. cbn [rw_threads]. apply Forall_set_nth; [exact N|]. rewrite Epc. exact I.
+Qed.
+
+Lemma ratomic_exec sched : forall w, master_ok w /\ no_upd w -> master_ok (rexec true w sched) /\ no_upd (rexec true w sched).
+Proof. induction sched as [|t r IH]; intros w H; cbn; auto. apply IH, ratomic_step, H. Qed.
+
+(** addTrData as it is: for every set of registrations and every schedule, whenever a video track
+    is registered the master track is a registered video track *)
+Lemma registration_master_video : forall reqs sched, master_ok (rexec true (rinit reqs) sched).
+Proof.
+  intros reqs sched. apply ratomic_exec. split.
+  - unfold master_ok, rinit. cbn. discriminate.
+  - unfold no_upd, rinit. cbn [rw_threads]. apply Forall_forall. intros th H. apply in_map_iff in H as (r & <- & _). exact I.
+Qed.
+
+(** the split shape (scan and update in two critical sections) admits a schedule that ends with a
+    non-video master although the video track is registered: audio scans, video registers, audio updates *)
+Lemma split_registration_witness :
+  exists sched,
+    let w := rexec false (rinit [(1, true); (2, false)]) sched in
+    rw_tbl w = [(1, true); (2, false)] /\ rw_master w = Some 2 /\
+    map r_pc (rw_threads w) = [RDone; RDone].
+Proof. exists [1; 0; 0; 1]%nat. vm_compute. repeat split. Qed.
